@@ -8,8 +8,10 @@ open Banyan
 def main (args : List String) : IO Unit :=
   let legacy := if args.contains "legacy" then true else if args.contains "fixed" then false
                 else !Generated.C02.initGuarded
+  let batchLegacy := if args.contains "batchlegacy" then true else if args.contains "batchfixed" then false
+                     else !Generated.C02.batchCutBetweenPoints
   let sxLegacy := if args.contains "sxlegacy" then true else if args.contains "sxfixed" then false
                   else !Generated.C03.sidxHullAllOrNone
   runDriver fun line =>
     if line.startsWith "sidx" then C03.sidxHandle sxLegacy line
-    else Store.Proto.handleWith (if legacy then C03.cfgLegacy else C03.cfg) line
+    else Store.Proto.handleWith { (if legacy then C03.cfgLegacy else C03.cfg) with batchFinishRun := !batchLegacy } line
